@@ -107,6 +107,21 @@ class Marker:
         return ("T", sample)
 
 
+def _kd_marker(log_path):
+    """the same post-cache transform as a KDTransform subclass (reports is_deterministic=True like every plain KDTransform,
+    yet must still be applied on every access - the property does not exempt 'deterministic' transforms)"""
+    from kappadata.transforms.base.kd_transform import KDTransform
+
+    class KDMarker(KDTransform):
+        def __init__(self, path):
+            super().__init__()
+            self._m = Marker(path)
+
+        def __call__(self, x, ctx=None):
+            return self._m(x)
+    return KDMarker(log_path)
+
+
 def _digest(v):
     return hashlib.sha1(repr(canon_value(v)).encode()).hexdigest()[:20]
 
@@ -151,7 +166,7 @@ def gen_cases(run):
                 ops.append(["iter"])                          # list(cached): legacy __getitem__ iteration protocol, ends with IndexError
             else:
                 ops.append(["get", rng.randrange(nkeys)])
-        yield {"kind": "seq", "payload": PAYLOADS[i % len(PAYLOADS)], "nkeys": nkeys, "ops": ops, "transform": rng.random() < 0.85}
+        yield {"kind": "seq", "payload": PAYLOADS[i % len(PAYLOADS)], "nkeys": nkeys, "ops": ops, "transform": rng.choice([True, True, "kd", "kd", False])}
     for i in range(n_conc):
         readers = rng.choice([2, 3, 4, 6, 8, 12]) if run.tier == "thorough" else rng.choice([2, 3, 4, 6])
         yield {"kind": "conc", "payload": rng.choice(["tensor", "tuple", "dict", "bytes", "int"]), "nkeys": rng.choice([1, 2, 3]), "readers": readers,
@@ -162,7 +177,11 @@ def gen_cases(run):
 def _new_cache(tmp, kind, nkeys, transform=True, sleep_us=0):
     from kappadata.caching import SharedDictDataset
     base = Base(nkeys, kind, str(tmp / "loads.log"), sleep_us=sleep_us)
-    tr = Marker(str(tmp / "transform.log")) if transform else None
+    tr = None
+    if transform == "kd":
+        tr = _kd_marker(str(tmp / "transform.log"))
+    elif transform:
+        tr = Marker(str(tmp / "transform.log"))
     return SharedDictDataset(base, transform=tr), base
 
 
